@@ -139,7 +139,7 @@ impl Property for C13 {
         (wire_gen::config_strategy(true), prop_oneof![Just(Drain::Answering), Just(Drain::Silent)])
             .prop_flat_map(move |(cfg, drain)| {
                 let np = cfg.n_peers;
-                (Just(cfg), proptest::collection::vec(wire_gen::op_strategy(np, wire_gen::Mix::Exemptions), 1..n), Just(drain))
+                (Just(cfg), wire_gen::ops_strategy(np, wire_gen::Mix::Exemptions, n), Just(drain))
             })
             .prop_map(|(cfg, ops, drain)| Case { cfg, ops, drain })
             .boxed()
